@@ -11,14 +11,23 @@ TRUSTED_BASE = [
     "model is cubic in NFFT; above, only the independent quadratic-form oracle is evaluated)",
     "the oracle's reference is written in numpy inside the oracle: Burg recursion, Yule-Walker solve for the lags, "
     "scipy.linalg.toeplitz, numpy.linalg.inv, the quadratic form at every bin; tolerance 1e-6 * max(1, 1e-6 cond R)",
+    "kind zerok: the exact Burg model is the Lean model's arburg evaluated over the rationals (driver command burg, Q mode) on the "
+    "record scaled by a power of two to small integers (AR vector and reflection coefficients do not depend on the scale); it is "
+    "used only where it costs < 0.3 s (<= 5 non-zero stages); the oracle's own float recursion is compared with it as well",
     "the Musicus identity psi_K = sum_{i-j=K} (R^-1)_{ij} (Gohberg-Semencul formula for the inverse of the Toeplitz matrix of an AR "
     "model) is not proved in Lean: it is tested with EXACT equality in rational arithmetic inside the model (R from the step-down "
     "recursion of the Burg model, inverse by Gauss-Jordan elimination) on dyadic data",
 ]
-PARTIAL = ["histories (kind reuse) are sampled, not exhausted: 36 (quick) / 150 per round (thorough) random histories of 8..60 operations; "
+PARTIAL = ["structured records (kind zerok) are sampled per class (3 per class x real/complex in quick, 10 per round in thorough); the "
+           "exact rational reference covers the records that are small integers up to a power of two with at most 5 non-zero "
+           "reflection coefficients, the others have the float reference only",
+           "histories (kind reuse) are sampled, not exhausted: 36 (quick) / 150 per round (thorough) random histories of 8..60 operations; "
            "whether an identity-based (id() / address) staleness bug manifests depends on the allocator state of the process, so the "
            "same history is run with records built on the spot and with records kept by the caller"]
 ASSUMPTIONS = ["NFFT >= 2m (no overlap of the two halves of psi); non-degenerate Burg error (rho_k >= 1e-9 rho_0)",
+               "kind zerok: 'non-degenerate prediction error' is decided by the independent float Burg recursion of the oracle: "
+               "rho_{m-1} >= 1e-7 rho_0 and every quantity finite (the threshold the generator uses for all other kinds); a pure fs/4 "
+               "carrier, a pure alternating-sign record, a constant on a 1-in-2 grid are generated on purpose and must be excluded",
                "histories: the statement is read as 'the estimate of the data the object holds at the time of the read, with the order / "
                "NFFT / sampling it holds then'; .ar / .reflection are compared only after psd has been read or p() called (they are plain "
                "attributes that the class fills during the computation); after the caller has modified its own array in place the "
@@ -37,7 +46,20 @@ RULE = ("real/complex data (noise, tones in noise, integer, trend) of length 8..
         "one object, amplitudes 2^-40..2^40; ar_order / NFFT / sampling / scale_by_freq changed in between; computations that fail "
         "in between (order 0 read / called, rejected NFFT); the caller modifying in place the arrays it handed to the constructor / "
         "setter; observations by reading psd (once, twice) or after an explicit p(): psd, ar, reflection each equal (per bin, 1e-13) "
-        "to minvar and to a fresh pminvar on the final attribute values, and the independent quadratic form on the last state")
+        "to minvar and to a fresh pminvar on the final attribute values, and the independent quadratic form on the last state; "
+        "STRUCTURED RECORDS with exactly-zero intermediate quantities of the Burg recursion (kind zerok: a reflection coefficient "
+        "exactly 0.0 at some stage followed by further stages, exact zeros in the forward / backward errors and in the AR vector): "
+        "zero-inserted up-sampling by 2 / 3 / 4 (any phase), mixing with the exact fs/4 carrier 1,0,-1,0 / 0,1,0,-1, Barker-11 / 13 "
+        "(reversed, sign-alternated, times a Gaussian integer, followed by silence), random +-1 / QPSK codes and short integer records "
+        "with zero lag-1 correlation, one impulse in the last / first / an interior sample, 2-4 isolated samples, exactly symmetric / "
+        "antisymmetric records, leading / trailing / interior / periodic blocks of exact zeros; the same records with a leak 2^-20 / "
+        "2^-35 / 2^-50 in the zero samples (tiny, non-zero reflection coefficients); samples small integers, dyadic, float noise, tone "
+        "in noise; real and complex, N 8..128, m 2..12, through minvar and pminvar (scale_by_freq off / on), int8 / int16 / int64 / list "
+        "containers; each checked against the independent quadratic form, the AR vector and reflection coefficients of the "
+        "independent Burg recursion and - small-integer records with <= 5 non-zero stages - of the Lean model's Burg recursion in "
+        "EXACT rational arithmetic (1e-12); records with (numerically) zero prediction error are recognised by a predicate on the "
+        "independent reference and not evaluated (tag zerok:excluded:degenerate-prediction-error); structured integer records also "
+        "through the exact Musicus identity")
 
 
 def _sp():
@@ -702,6 +724,7 @@ def _key_reuse(p):
 
 BARKER = {11: [1, 1, 1, -1, -1, -1, 1, -1, -1, 1, -1], 13: [1, 1, 1, 1, 1, -1, -1, 1, 1, -1, 1, -1, 1]}
 STRUCTS = ["stuff2", "stuff3", "stuff4", "carrier4", "barker", "pm1", "shortint", "impulse", "sparse", "sym", "antisym", "zblocks"]
+ZK_LEAKY = ("stuff2", "stuff3", "stuff4", "carrier4", "impulse", "sparse", "zblocks")
 INT_KINDS["int8"] = np.int8          # +-1 codes are commonly stored as int8 (wider records fall back to int64 in _api_input)
 
 
@@ -1313,7 +1336,7 @@ def _gen_zerok(nrng, tier):
     quick = tier == "quick"
     flav = ["int", "dyadic", "noise", "tone"]
     cases = []
-    j = 0
+    j = nd = 0
     for rep in range(3 if quick else 10):
         for si, name in enumerate(STRUCTS):
             for cplx in (False, True):
@@ -1330,14 +1353,25 @@ def _gen_zerok(nrng, tier):
                 mmax = min(N // 2, 12)
                 m = mmax if j % 5 == 0 else int(nrng.integers(2, mmax + 1)) if j % 7 else int(nrng.integers(2, min(mmax, 4) + 1))
                 x, info = structured(nrng, name, N, cplx, fl)
+                if (j // 2 + cplx + rep) % 4 == 1 and name in ZK_LEAKY and fl != "int":
+                    # nearly structured: the samples that were exactly zero hold a leak 2^-20 .. 2^-50 below the record, the
+                    # reflection coefficients that were exactly zero are now tiny but NOT zero (a stage must not be skipped
+                    # below a threshold either)
+                    e = [20, 35, 50][(j // 2 + rep) % 3]
+                    z = x == 0
+                    lk = nrng.standard_normal(N) + (1j * nrng.standard_normal(N) if cplx else 0)
+                    x = x + z * lk * float(np.max(np.abs(x))) * 2.0 ** -e
+                    info += "~leak2^-%d" % e
+                    fl = "leak2^-%d" % e
                 entry = ["minvar", "pminvar", "minvar"][(j + rep) % 3]
                 nfft = max([2 * m, 2 * m + 1, 32, 64, 33, N, N + 1, 128][(j + si) % 8], 2 * m)
                 q = {"x": x, "m": m, "nfft": nfft, "fs": FS_REUSE[j % len(FS_REUSE)] if entry == "pminvar" else [1.0, 2.5, 100.0, 0.01][j % 4],
                      "entry": entry, "struct": info, "sclass": name, "flavour": fl}
                 if entry == "pminvar":
                     q["scale"] = bool((j // 3) % 2)
-                if fl == "int" and j % 2:
-                    q["dkind"] = ["int8", "list", "int16", "int64"][(j // 2) % 4] if not cplx else "list"
+                if fl == "int" and (j // 2 + cplx + rep) % 2:
+                    q["dkind"] = ["int8", "list", "int16", "int64"][nd % 4] if not cplx else "list"
+                    nd += 1 - cplx
                 cases.append(("zerok", q))
                 if fl == "int" and N <= 16 and rep < (1 if quick else 4):
                     mi = 3 + j % 3
